@@ -31,6 +31,14 @@ def diag_inputs(pool, rnd, per):
     # many unused names in one module: the warnings must be the same set every time
     out.append("".join("fn u%d() { let a%d = %d; let b%d = a%d; }\n" % (i, i, i, i, i) for i in range(25)) + "fn main() { }\n")
     out.append("".join("let g%d = %d;\n" % (i, i) for i in range(30)) + "fn main() { let x = nope1 + nope2 + nope3; y = 1; z(); }\n")
+    # several things that are wrong in the same way: which one is named first / at all must not depend on a map order
+    out.append("import templ FooFeature from templates;\n$Device = { is_online: bool, current_brightness: int };\n\n"
+               "impl FooFeature with { light, temperature } for $Device {\n    fn dim(self: $Device, percent: int) -> bool { true }\n"
+               "    fn set_temp(self: $Device, celsius: float) { }\n}\n\nfn main() { }\n")
+    out.append("import templ FooFeature from templates;\n$Device = { a: int };\n\nimpl FooFeature with { temperature, light } for $Device {\n"
+               "    fn other(self: $Device) { }\n    fn more(self: $Device) { }\n}\n\nfn main() { }\n")
+    out.append("import { a, b, c, d } from nowhere;\nimport { e, f } from elsewhere;\nfn main() { a(); b(); c(); d(); e(); f(); }\n")
+    out.append("type A = { x: B, y: C, z: D };\nfn f(p: E, q: F) -> G { }\nfn main() { let v: H = 1; }\n")
     return list(dict.fromkeys(out))
 
 
@@ -69,6 +77,16 @@ def run(args):
             "%sfn m%d_f%d() { let p = %d; let q = base + p; let h = fn() -> int { q + 1 }; println(\"m%d.f%d\", h(), p); %s}\n" %
             ("pub " if j == 0 else "", k, j, j, k, j, ("m%d_f%d(); " % (k, j + 1)) if j < 4 else "") for j in range(5)) + "fn main() { }\n"
     multi.append(big)
+    # the same name imported by different modules from different modules (a table keyed by the bare name would let the map
+    # order decide), functions and globals alike
+    multi.append({
+        "main": "import describe from kitchen;\nimport level from kitchen;\nimport show from garage;\nimport peek from cellar;\n"
+                "fn main() { println(\"main:\", describe(), level); show(); peek(); println(\"main:\", describe(), level); }\n",
+        "garage": "import describe from tools;\nimport level from tools;\npub fn show() { println(\"garage:\", describe(), level); }\nfn main() { }\n",
+        "cellar": "import describe from shelf;\nimport level from shelf;\npub fn peek() { println(\"cellar:\", describe(), level); }\nfn main() { }\n",
+        "kitchen": "pub let level = 1;\npub fn describe() -> str { \"kitchen\" }\nfn main() { }\n",
+        "tools": "pub let level = 2;\npub fn describe() -> str { \"tools\" }\nfn main() { }\n",
+        "shelf": "pub let level = 3;\npub fn describe() -> str { \"shelf\" }\nfn main() { }\n"})
     mreqs = []
     for mods in multi:
         for b in ("vm", "tree"):
@@ -84,6 +102,9 @@ def run(args):
                      {"modules": q["a"]["modules"], "real": str(r)[:1500]})
             continue
         o = (r["r"]["accepted"], r["r"]["out"], (r["r"].get("outcome") or {}).get("kind"))
+        if "kitchen" in q["a"]["modules"] and o[1] != "main: kitchen 1\ngarage: tools 2\ncellar: shelf 3\nmain: kitchen 1\n":
+            rep.fail({"family": "multi-module", "backend": q["a"]["backend"], "kind": "wrong-output"}, {"modules": q["a"]["modules"], "got": o})
+            continue
         f = mfirst.setdefault(key, o)
         if f != o:
             rep.fail({"family": "multi-module", "backend": q["a"]["backend"], "kind": "repetition-differs", "what": "output"},
@@ -136,7 +157,7 @@ def run(args):
     reqs = []
     for i, s in enumerate(srcs):
         rep.nontrivial(s)
-        for k in range(reps):
+        for k in range(reps * 4):
             reqs.append({"op": "run", "id": len(reqs), "a": {"modules": {"main": s}, "entry": "main", "backend": "analyze", "timeout_ms": 8000}})
     res = pool.map(reqs, timeout=30)
     first = {}
